@@ -19,3 +19,8 @@ Definition set_size (s : set) : nat := length (sl s).
 Definition set_slice (s : set) : list bytes := sl s.
 Definition set_diff (s s2 : set) : set :=
   fold_left (fun d e => if set_has e s2 then d else set_add1 d e) (sl s) set_empty.
+
+(* ---- specification vocabulary: the reference is a duplicate-free list in first-insertion order ---- *)
+Definition ref_add (ref : list bytes) (vs : list bytes) : list bytes :=
+  fold_left (fun l v => if mem v l then l else l ++ [v]) vs ref.
+Definition ref_without (ref : list bytes) (vs : list bytes) : list bytes := filter (fun e => negb (mem e vs)) ref.
